@@ -167,6 +167,12 @@ def _items():
         'pub fn pred_arr(a: &[i32; 3]) -> bool { a[2] != 7 }\n', '')
     add('RE_STATIC',
         'pub static RE_STATIC: ::std::sync::LazyLock<::regex::Regex> = ::std::sync::LazyLock::new(|| ::regex::Regex::new("^[a-z]+[0-9]?$").unwrap());\n', '')
+    add('cow_fns',
+        "pub fn san_cow<'a>(c: ::std::borrow::Cow<'a, str>) -> ::std::borrow::Cow<'a, str> { c }\npub fn pred_cow<'a>(c: &::std::borrow::Cow<'a, str>) -> bool { !c.is_empty() }\n",
+        "pub uninterp spec fn SPEC_SAN_COW<'a>(c: ::std::borrow::Cow<'a, str>) -> ::std::borrow::Cow<'a, str>;\n#[verifier::external_body]\n"
+        "pub fn san_cow<'a>(c: ::std::borrow::Cow<'a, str>) -> (r: ::std::borrow::Cow<'a, str>) ensures r == SPEC_SAN_COW(c) { unimplemented!() }\n"
+        "pub uninterp spec fn SPEC_PRED_COW<'a>(c: ::std::borrow::Cow<'a, str>) -> bool;\n#[verifier::external_body]\n"
+        "pub fn pred_cow<'a>(c: &::std::borrow::Cow<'a, str>) -> (r: bool) ensures r == SPEC_PRED_COW(*c) { unimplemented!() }\n")
     add('Meters',
         '#[derive(Debug, Clone, Copy, PartialEq, Default)]\npub struct Meters(pub i32);\n'
         'impl<\'a> arbitrary::Arbitrary<\'a> for Meters { fn arbitrary(u: &mut arbitrary::Unstructured<\'a>) -> arbitrary::Result<Self> { Ok(Meters(u.arbitrary()?)) } }\n'
